@@ -223,7 +223,7 @@ theorem mod_accept_implies (H : HashFn) (sess : Bytes) (w : Int) (xs : List Int)
   simp only [ite_reject, bind_ok, Bool.not_eq_true, Bool.not_eq_false', bne_iff_ne,
     ne_eq, not_not, beq_iff_eq, not_lt, cur, Bool.true_and, Outcome.ok.injEq, Bool.or_eq_true, not_or,
     List.all_eq_true, Bool.and_eq_true, decide_eq_true_eq, List.mem_range, not_le, modIterations] at h
-  obtain ⟨⟨hn, hodd⟩, -, j, hj, hj1, hw, hg, hzs, hxs, ha, hb, ys, hys, ⟨-, hpp⟩, hall⟩ := h
+  obtain ⟨⟨hn, hodd⟩, -, j, hj, hj1, hw, hg, hzs, hxs, -, ha, hb, ys, hys, ⟨-, hpp⟩, hall⟩ := h
   have hn0 : n.toNat ≠ 0 := by omega
   have hnc : ((n.toNat : Nat) : Int) = n := Int.toNat_of_nonneg (le_of_lt hn)
   refine ⟨hn, by omega, hpp, ⟨j, hj, hj1⟩, hw, ?_, hzs, hxs, ha, hb, ys, hys, ?_, fun i hi => ?_⟩
